@@ -55,3 +55,6 @@ M("c07-spawn-no-restart", "C07", A, "TaskGroup._spawn", "        self.cancel_sco
 M("c07-start-value-none-means-not-started", "C07", TASKS, "TaskHandle.start_value",
   "        try:\n            return self._start_value\n        except AttributeError:\n            raise RuntimeError(\n                \"the task was not started with TaskGroup.start()\"\n            ) from None",
   "        start_value = getattr(self, \"_start_value\", None)\n        if start_value is None:\n            raise RuntimeError(\"the task was not started with TaskGroup.start()\")\n\n        return start_value", ["R07-i"])
+N("c07-n-start-value-hasattr", "C07", TASKS, "TaskHandle.start_value",
+  "        try:\n            return self._start_value\n        except AttributeError:\n            raise RuntimeError(\n                \"the task was not started with TaskGroup.start()\"\n            ) from None",
+  "        if not hasattr(self, \"_start_value\"):\n            raise RuntimeError(\"the task was not started with TaskGroup.start()\")\n\n        return self._start_value")
